@@ -3,7 +3,23 @@
 from __future__ import annotations
 
 
+class SimInterrupt(KeyboardInterrupt):
+    """The user interrupts a computation (Ctrl-C in a notebook): raised from inside a rate law."""
+
+
+TRIP: list = [None]  # None = not armed; k = raise at the k-th rate-law evaluation from now
+
+
+def _trip() -> None:
+    if TRIP[0] <= 0:
+        TRIP[0] = None
+        raise SimInterrupt
+    TRIP[0] -= 1
+
+
 def const(x):  # noqa: ANN001, ANN201
+    if TRIP[0] is not None:
+        _trip()
     return x
 
 
@@ -31,6 +47,8 @@ def div(x, y):  # noqa: ANN001, ANN201
 
 
 def ma1(s, k):  # noqa: ANN001, ANN201
+    if TRIP[0] is not None:
+        _trip()
     return k * s
 
 
@@ -39,6 +57,8 @@ def ma2(s1, s2, k):  # noqa: ANN001, ANN201
 
 
 def ma1_rev(s, p, kf, kr):  # noqa: ANN001, ANN201
+    if TRIP[0] is not None:
+        _trip()
     return kf * s - kr * p
 
 
